@@ -26,7 +26,9 @@ Proof      : coq/Props/C06.v over Model/GCRace.v: for every interleaving of coll
              (translator/gen_txmarkers.py -> Gen/GenTxMarkers.v: which methods grow / drop self._inflight_markers, which methods
              are reachable from the RETRY arm of commit's conflict handler, registration before write / before queueing);
              C06_tx_markers_cover_payload_kernels is the statement for any kernels that protect and do not drop on retry, and
-             C06_dropping_retry_refuted shows the condition is necessary (a retry arm that drops publishes an unmarked file).
+             C06_dropping_retry_refuted shows the condition is necessary (a retry arm that drops publishes an unmarked file), and
+             C06_dropped_marker_loses_file what that costs on the collector x transactions machine (Model/GCRaceDrop.v: an adopted
+             file 10 h old, its marker dropped by the lost attempt, is deleted by a 4 ms run before the retry publishes it).
 Tie        : the real GarbageCollector.collect runs as an actor under the scheduler against real transactions on the
              local backend in VIRTUAL time (time.time in the collector, datetime in the library, and file modification
              times all come from the scheduler clock, so 'five hours pass' is one schedule event); the storage log is
@@ -61,7 +63,8 @@ from harness.props import c01
 LEVEL = "proof"
 THEOREMS = ["C06_gc_race_safe", "C06_swept_only_abandoned", "C06_unswept_marker_kept", "C06_marker_kernel", "C06_delete_kernel",
             "C06_unmarked_adoption_refuted",
-            "C06_tx_markers_cover_payload", "C06_tx_markers_cover_payload_kernels", "C06_dropping_retry_refuted"]
+            "C06_tx_markers_cover_payload", "C06_tx_markers_cover_payload_kernels", "C06_dropping_retry_refuted",
+            "C06_dropped_marker_loses_file"]
 REQ = ["DS.Model.GCRace"]
 REQ_LEDGER = ["DS.Gen.GenTxMarkers", "DS.Model.TxMarkers"]
 MANIFEST_ENTRY = {
